@@ -145,7 +145,7 @@ package cty
 // clauses are assumed at its call sites, not proved (C03; `ensures[assumed]`), and so is the absence of
 // panics for well-formed operands (`no_panic_assumed`).
 //@ func (cty.Value).Equals
-//@   tags C03 C04
+//@   tags C01 C03 C04
 //@   no_panic_assumed
 //@   requires (and (wf_deep val) (wf_deep other))
 //@   ensures[assumed] (and (is_bool_ty (vty result)) (wf_deep result) (not (is_null result)))
@@ -165,6 +165,9 @@ package cty
 //@   let plainpair (and (not (deep_marked val)) (not (deep_marked other)) (kn val) (kn other))
 //@   ensures[C03] map_keys: (=> (and plainpair (is_map_ty (vty val)) (bool_payload result true)) (and (= (MapC<String~Any>.card (raw_mapc (cty.Value.v val))) (MapC<String~Any>.card (raw_mapc (cty.Value.v other)))) (forall ((k String)) (! (=> (select (MapC<String~Any>.dom (raw_mapc (cty.Value.v val))) k) (select (MapC<String~Any>.dom (raw_mapc (cty.Value.v other))) k)) :pattern ((select (MapC<String~Any>.dom (raw_mapc (cty.Value.v val))) k))))))
 //@   ensures[C03] map_elems: (=> (and plainpair (is_map_ty (vty val)) (bool_payload result true)) (forall ((k String)) (! (=> (select (MapC<String~Any>.dom (raw_mapc (cty.Value.v val))) k) (eq_true (mkval (elem_ty (vty val)) (select (MapC<String~Any>.val (raw_mapc (cty.Value.v val))) k)) (mkval (elem_ty (vty val)) (select (MapC<String~Any>.val (raw_mapc (cty.Value.v other))) k)))) :pattern ((select (MapC<String~Any>.dom (raw_mapc (cty.Value.v val))) k)))))
+// sets (C01): a known answer for two known sets of one type is given only when both are wholly known (a member
+// with unknown parts may turn out to be equal to a member of the other set)
+//@   ensures[C01] set_known_only_if_decided: (=> (and plainpair (is_set_ty (vty val)) (is_set_ty (vty other)) (ty_eq (vty val) (vty other)) (is_known result)) (and (wholly_known val) (wholly_known other)))
 //@   ensures[C03] list_len: (=> (and plainpair (is_list_ty (vty val)) (bool_payload result true)) (= (Slice.len (pl_seq val)) (Slice.len (pl_seq other))))
 //@   ensures[C03] list_elems: (=> (and plainpair (is_list_ty (vty val)) (bool_payload result true)) (forall ((j Int)) (! (=> (and (trig j) (<= 0 j) (< j (Slice.len (pl_seq val)))) (eq_true (mkval (elem_ty (vty val)) (pl_seq_at val j)) (mkval (elem_ty (vty val)) (pl_seq_at other j)))) :pattern ((trig j)))))
 //@   loop 6 invariant (forall ((k String)) (! (=> (select $visited k) (and (select (MapC<String~Any>.dom (raw_mapc (cty.Value.v other))) k) (eq_true (mkval (elem_ty (vty val)) (select (MapC<String~Any>.val (raw_mapc (cty.Value.v val))) k)) (mkval (elem_ty (vty val)) (select (MapC<String~Any>.val (raw_mapc (cty.Value.v other))) k))))) :pattern ((select $visited k))))
